@@ -340,6 +340,29 @@ func checkC06(c *Ctx) {
 			continue
 		}
 		clo := t.sl.localClosureCallee(cc.Args[2])
+		// a closure factory shared by the sessions: an own function whose only return is a closure literal
+		var factory *ssa.Function
+		var factoryCall *ssa.Call
+		if clo == nil {
+			if fc, ok := strip(cc.Args[2]).(*ssa.Call); ok {
+				if g := staticCallee(&fc.Call); g != nil && g.Blocks != nil && pkgPathOf(g) == PkgThreshold && len(g.Params) == len(fc.Call.Args) {
+					var rets []*ssa.Return
+					for _, gi := range instrsOf(g) {
+						if r, isR := gi.(*ssa.Return); isR {
+							rets = append(rets, r)
+						}
+					}
+					if len(rets) == 1 && len(rets[0].Results) == 1 {
+						noParamLook++
+						mc, isMC := strip(rets[0].Results[0]).(*ssa.MakeClosure)
+						noParamLook--
+						if isMC {
+							clo, factory, factoryCall = mc.Fn.(*ssa.Function), g, fc
+						}
+					}
+				}
+			}
+		}
 		if clo == nil {
 			c.Unk(V1, FuncName(ci.Parent()), "sendMsg closure", m.Pos(ci.Pos()), "the sendMsg argument of Init is not a closure literal")
 			continue
@@ -361,9 +384,25 @@ func checkC06(c *Ctx) {
 			dep := false
 			if ok1 {
 				s := t.sl.Slice(dests[0])
-				for f := range t.conts {
-					if len(f.Params) > 0 && s[f.Params[0]] {
-						dep = true
+				if factory == nil {
+					for f := range t.conts {
+						if len(f.Params) > 0 && s[f.Params[0]] {
+							dep = true
+						}
+					}
+				} else {
+					// per session: what THIS call of the factory passes for the parameters the destination
+					// is computed from
+					for i, gp := range factory.Params {
+						if !s[gp] {
+							continue
+						}
+						sa := t.sl.Slice(factoryCall.Call.Args[i])
+						for f := range t.conts {
+							if len(f.Params) > 0 && sa[f.Params[0]] {
+								dep = true
+							}
+						}
 					}
 				}
 				// and on the addressed party
@@ -518,7 +557,7 @@ func checkC06(c *Ctx) {
 					isSort = true
 				}
 			}
-			if isSort && len(cl.Call.Args) >= 1 && (strip(cl.Call.Args[0]) == res || sameValue(cl.Call.Args[0], res)) && instrDominates(cl, r) {
+			if isSort && len(cl.Call.Args) >= 1 && (strip(cl.Call.Args[0]) == res || sameValue(cl.Call.Args[0], res) || sameCellUnwrittenAfter(cl.Call.Args[0], res, cl)) && instrDominates(cl, r) {
 				okSort = true
 			}
 		}
@@ -540,4 +579,70 @@ func checkC06(c *Ctx) {
 	}
 	c.Check(okTab, G1, FuncName(translate), "translation through the node→party table", m.Pos(translate.Pos()), "partyIDByUniversalID(id) per agreed node", "the agreed nodes are not translated through the membership table")
 	_ = sort.Strings
+}
+
+// sameCellUnwrittenAfter: a and b are loads of one local variable that lives in a cell (it is captured
+// by a literal, e.g. the less function of sort.Slice), and nothing writes the variable after `from`:
+// no store in the function that `from` can reach, and no literal capturing the cell stores to it.
+func sameCellUnwrittenAfter(a, b ssa.Value, from ssa.Instruction) bool {
+	la, ok1 := strip(a).(*ssa.UnOp)
+	lb, ok2 := strip(b).(*ssa.UnOp)
+	if !ok1 || !ok2 || la.Op != token.MUL || lb.Op != token.MUL {
+		return false
+	}
+	cell, ok := la.X.(*ssa.Alloc)
+	if !ok || lb.X != ssa.Value(cell) || cell.Referrers() == nil {
+		return false
+	}
+	after := reachableBlocks(from.Block())
+	for _, r := range *cell.Referrers() {
+		switch x := r.(type) {
+		case *ssa.Store:
+			if x.Addr != ssa.Value(cell) {
+				return false // the address itself is stored somewhere
+			}
+			if x.Block() == from.Block() {
+				if instrIndex(x) > instrIndex(from) {
+					return false
+				}
+				// the block may also be re-entered through a loop
+				inLoop := false
+				for _, sblk := range from.Block().Succs {
+					if reachableBlocks(sblk)[from.Block()] {
+						inLoop = true
+					}
+				}
+				if inLoop {
+					return false
+				}
+				continue
+			}
+			if after[x.Block()] {
+				return false
+			}
+		case *ssa.UnOp:
+		case *ssa.MakeClosure:
+			fn, _ := x.Fn.(*ssa.Function)
+			if fn == nil {
+				return false
+			}
+			for i, bnd := range x.Bindings {
+				if bnd != ssa.Value(cell) || i >= len(fn.FreeVars) {
+					continue
+				}
+				fv := fn.FreeVars[i]
+				if fv.Referrers() == nil {
+					continue
+				}
+				for _, q := range *fv.Referrers() {
+					if _, isLoad := q.(*ssa.UnOp); !isLoad {
+						return false // the literal writes the variable or passes its address on
+					}
+				}
+			}
+		default:
+			return false
+		}
+	}
+	return true
 }
